@@ -1,8 +1,317 @@
-import EdpVerif.Drv.Common
-namespace Edp.Drv
+import EdpVerif.Drv.Etf
+import EdpVerif.Impl.Serde
+import EdpVerif.Spec.Serde
+/-!
+Driver requests of property C15 and the text form of `Ty` / `Val` shared with harness/src/c15.rs.
 
-/-- driver requests of property C15 (stub: nothing handled yet) -/
+Types:  `i8 … u64 f32 f64 bool char str bytes unit opt(T) tup(T,…) seq(T) map(K,V) st:NAME(F:T,…) us:NAME nt:NAME(T)
+         ts:NAME(T,…) ex:MODULE(F:T,…) en:NAME(V:SHAPE,…)`  (names in hex; SHAPE = `unit | nt:(T) | tup(T,…) | st:(F:T,…)`)
+Values: `i8:-5 f32:HEX8 f64:HEX16 true false c:CODEPOINT s:HEX b:HEX unit none some(V) tup(V,…) seq(V,…) map(K,V,K,V,…)
+         st:NAME(F:V,…) us:NAME nt:NAME(V) ts:NAME(V,…) ex:MODULE(F:V,…) en:ENUM:VARIANT(PAYLOAD)`
+-/
+namespace Edp.Drv
+open Edp Edp.Serde
+
+namespace C15
+
+def IntTy.text : IntTy → String
+  | .i8 => "i8" | .i16 => "i16" | .i32 => "i32" | .i64 => "i64"
+  | .u8 => "u8" | .u16 => "u16" | .u32 => "u32" | .u64 => "u64"
+
+def intTyOf : String → Option IntTy
+  | "i8" => some .i8 | "i16" => some .i16 | "i32" => some .i32 | "i64" => some .i64
+  | "u8" => some .u8 | "u16" => some .u16 | "u32" => some .u32 | "u64" => some .u64
+  | _ => none
+
+def hexPad (width n : Nat) : String :=
+  hexOf (beN width n)
+
+mutual
+partial def valText : Val → String
+  | .int k i => IntTy.text k ++ ":" ++ toString i
+  | .f32 b => "f32:" ++ hexPad 4 b
+  | .f64 b => "f64:" ++ hexPad 8 b
+  | .bool b => if b then "true" else "false"
+  | .char c => "c:" ++ toString c
+  | .string s => "s:" ++ hexOf s
+  | .bytes b => "b:" ++ hexOf b
+  | .unit => "unit"
+  | .none => "none"
+  | .some v => "some(" ++ valText v ++ ")"
+  | .tuple vs => "tup(" ++ valsText vs ++ ")"
+  | .seq vs => "seq(" ++ valsText vs ++ ")"
+  | .map kvs => "map(" ++ ",".intercalate (kvs.map fun kv => valText kv.1 ++ "," ++ valText kv.2) ++ ")"
+  | .struct n fs => "st:" ++ hexOf n ++ "(" ++ fieldsText fs ++ ")"
+  | .unitStruct n => "us:" ++ hexOf n
+  | .newtype n v => "nt:" ++ hexOf n ++ "(" ++ valText v ++ ")"
+  | .tupleStruct n vs => "ts:" ++ hexOf n ++ "(" ++ valsText vs ++ ")"
+  | .exStruct m fs => "ex:" ++ hexOf m ++ "(" ++ fieldsText fs ++ ")"
+  | .variant e v p => "en:" ++ hexOf e ++ ":" ++ hexOf v ++ "(" ++ valText p ++ ")"
+partial def valsText (vs : List Val) : String := ",".intercalate (vs.map valText)
+partial def fieldsText (fs : List (Bytes × Val)) : String :=
+  ",".intercalate (fs.map fun f => hexOf f.1 ++ ":" ++ valText f.2)
+end
+
+abbrev P := List Char
+
+def pIdent (cs : P) : String × P :=
+  let h := cs.takeWhile Char.isAlphanum
+  (String.ofList h, cs.drop h.length)
+
+def pHexName (cs : P) : Bytes × P := Term.pHex cs
+
+def expect (c : Char) (cs : P) : Option P := Term.expect c cs
+
+/-- `X,X,…` up to the closing parenthesis (which is consumed) -/
+partial def pList (item : P → Option (α × P)) (cs : P) : Option (List α × P) :=
+  match cs with
+  | ')' :: r => some ([], r)
+  | _ => do
+    let (x, r) ← item cs
+    match r with
+    | ',' :: r' => do
+      let (xs, r'') ← pList item r'
+      pure (x :: xs, r'')
+    | ')' :: r' => pure ([x], r')
+    | _ => none
+
+mutual
+partial def pTy (cs : P) : Option (Ty × P) :=
+  let (id, r) := pIdent cs
+  match intTyOf id with
+  | some k => some (.int k, r)
+  | none =>
+  match id with
+  | "f32" => some (.f32, r) | "f64" => some (.f64, r) | "bool" => some (.bool, r) | "char" => some (.char, r)
+  | "str" => some (.string, r) | "bytes" => some (.bytes, r) | "unit" => some (.unit, r)
+  | "opt" => do
+    let r ← expect '(' r
+    let (t, r) ← pTy r
+    let r ← expect ')' r
+    pure (.option t, r)
+  | "seq" => do
+    let r ← expect '(' r
+    let (t, r) ← pTy r
+    let r ← expect ')' r
+    pure (.seq t, r)
+  | "tup" => do
+    let r ← expect '(' r
+    let (ts, r) ← pList pTy r
+    pure (.tuple ts, r)
+  | "map" => do
+    let r ← expect '(' r
+    let (k, r) ← pTy r
+    let r ← expect ',' r
+    let (v, r) ← pTy r
+    let r ← expect ')' r
+    pure (.map k v, r)
+  | "us" => do
+    let r ← expect ':' r
+    let (n, r) := pHexName r
+    pure (.unitStruct n, r)
+  | "nt" => do
+    let r ← expect ':' r
+    let (n, r) := pHexName r
+    let r ← expect '(' r
+    let (t, r) ← pTy r
+    let r ← expect ')' r
+    pure (.newtype n t, r)
+  | "ts" => do
+    let r ← expect ':' r
+    let (n, r) := pHexName r
+    let r ← expect '(' r
+    let (ts, r) ← pList pTy r
+    pure (.tupleStruct n ts, r)
+  | "st" => do
+    let r ← expect ':' r
+    let (n, r) := pHexName r
+    let r ← expect '(' r
+    let (fs, r) ← pList pTyField r
+    pure (.struct n fs, r)
+  | "ex" => do
+    let r ← expect ':' r
+    let (n, r) := pHexName r
+    let r ← expect '(' r
+    let (fs, r) ← pList pTyField r
+    pure (.exStruct n fs, r)
+  | "en" => do
+    let r ← expect ':' r
+    let (n, r) := pHexName r
+    let r ← expect '(' r
+    let (fs, r) ← pList pTyField r
+    pure (.enum n fs, r)
+  | _ => none
+partial def pTyField (cs : P) : Option ((Bytes × Ty) × P) := do
+  let (n, r) := pHexName cs
+  let r ← expect ':' r
+  let (t, r) ← pTy r
+  pure ((n, t), r)
+end
+
+def pairUp : List Val → Option (List (Val × Val))
+  | [] => some []
+  | [_] => none
+  | k :: v :: r => (pairUp r).map ((k, v) :: ·)
+
+mutual
+partial def pVal (cs : P) : Option (Val × P) :=
+  let (id, r) := pIdent cs
+  match intTyOf id with
+  | some k => do
+    let r ← expect ':' r
+    let (i, r) := Term.pInt r
+    pure (.int k i, r)
+  | none =>
+  match id with
+  | "f32" => do
+    let r ← expect ':' r
+    let (b, r) := pHexName r
+    let (v, _) ← rdN 4 b
+    pure (.f32 v, r)
+  | "f64" => do
+    let r ← expect ':' r
+    let (b, r) := pHexName r
+    let (v, _) ← rdN 8 b
+    pure (.f64 v, r)
+  | "true" => some (.bool true, r)
+  | "false" => some (.bool false, r)
+  | "c" => do
+    let r ← expect ':' r
+    let (n, r) := Term.pNat r
+    pure (.char n, r)
+  | "s" => do
+    let r ← expect ':' r
+    let (b, r) := pHexName r
+    pure (.string b, r)
+  | "b" => do
+    let r ← expect ':' r
+    let (b, r) := pHexName r
+    pure (.bytes b, r)
+  | "unit" => some (.unit, r)
+  | "none" => some (.none, r)
+  | "some" => do
+    let r ← expect '(' r
+    let (v, r) ← pVal r
+    let r ← expect ')' r
+    pure (.some v, r)
+  | "tup" => do
+    let r ← expect '(' r
+    let (vs, r) ← pList pVal r
+    pure (.tuple vs, r)
+  | "seq" => do
+    let r ← expect '(' r
+    let (vs, r) ← pList pVal r
+    pure (.seq vs, r)
+  | "map" => do
+    let r ← expect '(' r
+    let (vs, r) ← pList pVal r
+    let kvs ← pairUp vs
+    pure (.map kvs, r)
+  | "us" => do
+    let r ← expect ':' r
+    let (n, r) := pHexName r
+    pure (.unitStruct n, r)
+  | "nt" => do
+    let r ← expect ':' r
+    let (n, r) := pHexName r
+    let r ← expect '(' r
+    let (v, r) ← pVal r
+    let r ← expect ')' r
+    pure (.newtype n v, r)
+  | "ts" => do
+    let r ← expect ':' r
+    let (n, r) := pHexName r
+    let r ← expect '(' r
+    let (vs, r) ← pList pVal r
+    pure (.tupleStruct n vs, r)
+  | "st" => do
+    let r ← expect ':' r
+    let (n, r) := pHexName r
+    let r ← expect '(' r
+    let (fs, r) ← pList pValField r
+    pure (.struct n fs, r)
+  | "ex" => do
+    let r ← expect ':' r
+    let (n, r) := pHexName r
+    let r ← expect '(' r
+    let (fs, r) ← pList pValField r
+    pure (.exStruct n fs, r)
+  | "en" => do
+    let r ← expect ':' r
+    let (e, r) := pHexName r
+    let r ← expect ':' r
+    let (v, r) := pHexName r
+    let r ← expect '(' r
+    let (p, r) ← pVal r
+    let r ← expect ')' r
+    pure (.variant e v p, r)
+  | _ => none
+partial def pValField (cs : P) : Option ((Bytes × Val) × P) := do
+  let (n, r) := pHexName cs
+  let r ← expect ':' r
+  let (v, r) ← pVal r
+  pure ((n, v), r)
+end
+
+def getTy (s : String) : Except String Ty :=
+  match pTy s.toList with
+  | some (t, []) => .ok t
+  | _ => .error ("bad-ty " ++ s.take 40)
+
+def getVal (s : String) : Except String Val :=
+  match pVal s.toList with
+  | some (v, []) => .ok v
+  | _ => .error ("bad-val " ++ s.take 40)
+
+def showDe : SRes Val → String
+  | .ok v => "ok " ++ valText v
+  | .error _ => "err"
+
+end C15
+
+open C15 in
 def handleC15 : List String → Option String
+  -- `to_term`
+  | ["c15ser", v] => some <| run do
+    let v ← getVal v
+    pure ("ok " ++ (ser v).text)
+  -- `from_term::<ty>`
+  | ["c15de", ty, t] => some <| run do
+    let ty ← getTy ty
+    let t ← getTerm t
+    pure (showDe (de ty t))
+  -- the closed form of `decode ∘ encode` on the serialiser's fragment
+  | ["c15wire", t] => some <| run do
+    let t ← getTerm t
+    -- the closed form must agree with the encoder/decoder models themselves (and, by the tie, with the real codec)
+    match encode t with
+    | .ok b =>
+      match decode Ext.none b with
+      | .ok t' =>
+        if t'.text == (wireT t).text then pure ("ok " ++ (wireT t).text)
+        else pure ("MISMATCH closed-form " ++ (wireT t).text ++ " codec-model " ++ t'.text)
+      | .error _ => pure "MISMATCH codec-model-decode-error"
+    | .error _ => pure "MISMATCH codec-model-encode-error"
+  -- `from_bytes::<ty>(to_bytes(v))` in one go (external calls are not reached on these bytes)
+  | ["c15bytes", ty, v] => some <| run do
+    let ty ← getTy ty
+    let v ← getVal v
+    match toBytes v with
+    | .ok b => pure (showDe (fromBytes Ext.none ty b))
+    | .error _ => pure "encerr"
+  -- property oracle: the implementation's round-trip result `res` for `v : ty` against the specification
+  | ["c15rt", mode, ty, v, res] => some <| run do
+    let ty ← getTy ty
+    let v ← getVal v
+    if !hasTy v ty then pure "FAIL generator: value not of the type" else
+    if !Spec.Serde.distinguishable v ty then pure "ok" else
+    if res == valText v then pure "ok" else pure ("FAIL " ++ mode ++ " round trip of " ++ valText v ++ " gave " ++ res)
+  -- the specification's classification of a value (which guards hold), tied to the harness's own classification
+  | ["c15class", ty, v] => some <| run do
+    let ty ← getTy ty
+    let v ← getVal v
+    pure ((if hasTy v ty then "ty" else "noty") ++ (if Spec.Serde.distinguishable v ty then ",dist" else ",nodist") ++
+      (if Spec.Serde.wireSafe v then ",safe" else ",unsafe"))
   | _ => none
 
 end Edp.Drv
